@@ -177,20 +177,31 @@ type worker struct {
 }
 
 type tailBuf struct {
-	mu sync.Mutex
-	b  []byte
+	mu   sync.Mutex
+	head []byte // the first 256 KB (a panic message comes first, before a possibly huge goroutine dump)
+	b    []byte // the last 512 KB of the rest
 }
 
 func (t *tailBuf) Write(p []byte) (int, error) {
 	t.mu.Lock()
+	n := len(p)
+	if room := 1<<18 - len(t.head); room > 0 {
+		k := min(room, len(p))
+		t.head = append(t.head, p[:k]...)
+		p = p[k:]
+	}
 	t.b = append(t.b, p...)
 	if len(t.b) > 1<<20 {
-		t.b = t.b[len(t.b)-1<<19:]
+		t.b = t.b[len(t.b)-(1<<19):]
 	}
 	t.mu.Unlock()
-	return len(p), nil
+	return n, nil
 }
-func (t *tailBuf) String() string { t.mu.Lock(); defer t.mu.Unlock(); return string(t.b) }
+func (t *tailBuf) String() string {
+	t.mu.Lock()
+	defer t.mu.Unlock()
+	return string(t.head) + string(t.b)
+}
 
 func startWorker(bin string, extraEnv ...string) *worker {
 	w := &worker{bin: bin}
@@ -265,6 +276,9 @@ func (w *worker) run(j Job, wallLimit time.Duration) Result {
 			w.cmd.Wait()
 			w.alive = false
 			r.crashOut += "\n" + w.errb.String()
+			if w.cmd.ProcessState != nil {
+				r.crashOut += "\n[worker " + w.cmd.ProcessState.String() + "]"
+			}
 		}
 		return r
 	case <-time.After(wallLimit):
